@@ -9,6 +9,7 @@ import (
 	"sort"
 	"strings"
 	"sync"
+	"sync/atomic"
 	"time"
 
 	"golang.org/x/tools/go/ssa"
@@ -34,6 +35,8 @@ type Options struct {
 	Seed      int
 	ChunkSize int
 }
+
+var longAttempts int32
 
 func countInstrs(fn *ssa.Function) int {
 	n := 0
@@ -172,6 +175,14 @@ func verifyUnit(w *World, u *Unit, opt Options) *UnitResult {
 					if r2.Status == "unsat" || r2.Status == "sat" {
 						r2.Retried = true
 						ob.Result = r2
+					} else if atomic.AddInt32(&longAttempts, 1) <= 3 {
+						// a loaded machine stretches solver times several-fold: one last, long attempt before the
+						// obligation is reported (at most four per run, so a tree that breaks many obligations stays fast)
+						r3 := solve(q, fmt.Sprintf("%s.s%d", sanitize(u.Name), ob.Index), 6*opt.TimeoutMs, opt.Thorough, true)
+						if r3.Status == "unsat" || r3.Status == "sat" {
+							r3.Retried = true
+							ob.Result = r3
+						}
 					}
 				}
 				if ob.Result.Status != "unsat" && ob.Result.Status != "sat" && ob.Result.Status != "unsat-single" {
